@@ -2049,7 +2049,7 @@ Qed.
    Exact check: Y still waits 600, accumulated wait 3000 > 2400: the move is
    rejected by the vehicle max-wait constraint and rolled back. *)
 Definition w_opts : options :=
-  mkOptions false false false false false false false false false false false 0 1 0 1 false 0 0 0 0 false.
+  mkOptions false false false false false false false false false false false 0 1 0 1 false 0 0 0 0 false [].
 Definition w_X : istop := mkIStop [] 0 [(3000, 100020)] None 10 [] None 0 0.
 Definition w_Y : istop := mkIStop [] 0 [(6600, 100020)] None 10 [] None 0 0.
 Definition w_veh : ivehicle :=
@@ -2412,7 +2412,7 @@ Qed.
    also compare the END of X (1200 against the cached 600), do not stop, go
    on to Z and answer "violated". *)
 Definition dg_opts : options :=
-  mkOptions false false false false false false false false false false false 0 1 0 1 false 0 0 0 0 false.
+  mkOptions false false false false false false false false false false false 0 1 0 1 false 0 0 0 0 false [].
 Definition dg_plain : istop := mkIStop [] 0 [] None 10 [] None 0 0.
 Definition dg_Z : istop := mkIStop [] 0 [(60, 900); (3600, 7200)] (Some 60) 10 [] None 0 0.
 Definition dg_veh : ivehicle := mkIVehicle None [] 0 None None None None None [] 0 true true 0 0 1 1.
@@ -2618,7 +2618,7 @@ Definition dg_off_inp : input :=
   mkInput [] [dg_plain; dg_plain; dg_Z; dg_plain] [dg_veh]
           [mkIUnit [0; 1; 2]%nat []; mkIUnit [3%nat] []]
           dg_mat dg_mat 0
-          (mkOptions false false false false false false false false false false false 0 1 0 1 true 0 0 0 0 false)
+          (mkOptions false false false false false false false false false false false 0 1 0 1 true 0 0 0 0 false [])
           [([0; 1]%nat, 600)].
 Definition dg_off_s0 : state :=
   Eval vm_compute in match new_solution dg_off_inp with Some s => s | None => w_dummy end.
